@@ -6,6 +6,7 @@ from gen import SeqGen
 from props.c20 import seg_table, FN_PARAMS, _same_arrays
 
 ID = "C09"
+UNIVERSAL_EVERY = 6      # every n-th case is a feature-rich random program (props/universal.py)
 LEAN_MODULE = "BB.Properties.C09"
 QUICK_N = 110
 THOROUGH_N = 2200
